@@ -59,6 +59,9 @@ c.returns(STR)
 c.requires('forall(lambda k: packet_ok(self.packets[k]), 0, len(self.packets))', 'packets-ok')
 c.ensures('joined', 'implies(jsonp_index is None, '
           'result == payload_text(self.packets, len(self.packets)))', props=['C02'])
+c.ensures('jsonp-is-one-call-with-the-payload-as-string-literal',
+          'implies(jsonp_index is not None, result == jsonp_body(jsonp_index, '
+          'payload_text(self.packets, len(self.packets))))', props=['C19'])
 c.ensures('packets-ok', 'forall(lambda k: packet_ok(self.packets[k]), 0, len(self.packets))')
 c.modifies('Packet.encode_cache')
 c.loop(0, index='i',
